@@ -520,10 +520,10 @@ def replay(case):
                 c['ioerr'] = [io_[0], max(0, int(io_[1]))] if isinstance(io_, list) and len(io_) == 2 and io_[0] in \
                     ('mkstemp', 'chunk-write', 'rename', 'unlink', 'any') else None
         except (ValueError, TypeError):
-            return []
+            return None            # not a case this check generates: cannot be replayed
         return run_real_case(c)[0]
     if case.get('edge') not in ('smtp', 'wsgi', 'wsgi-http') or case.get('queue') not in ('queue', 'proxy'):
-        return []
+        return None            # not a case this check generates: cannot be replayed
     case = dict(case)
     case['nrcpt'] = max(1, min(5, int(case.get('nrcpt', 1))))
     case['plan'] = [p if p in FAULTS else 'ok' for p in case.get('plan', [])]
@@ -534,7 +534,7 @@ def replay(case):
     if case['queue'] == 'proxy':
         r = case.get('relay') or {}
         if r.get('shape') not in ('none', 'reply', 'raise_t', 'raise_p', 'map', 'seq'):
-            return []
+            return None            # not a case this check generates: cannot be replayed
         r['per'] = [k for k in r.get('per', []) if k in ('ok', 'temp', 'perm')] or ['ok']
         case['relay'] = r
     f, _ = run_case(case)
